@@ -66,6 +66,7 @@ def plan_message_faults(base, clean, reading, tier, rng, directed=True):
     out.extend(faults.numeral_faults(sp, enc))
     out.extend(faults.typed_token_faults(sp, enc))
     out.extend(faults.pds_tag_faults(sp, enc))
+    out.extend(faults.pds_header_faults(sp, enc))
     if hexb:
         out.extend(faults.hex_bitmap_pair_faults(sp))
     out.extend(faults.splice_faults(clean, sp, enc))
